@@ -1188,7 +1188,9 @@ impl World {
                 ks.extend(self.split_points());
             }
             for (i, c) in self.callers.iter().enumerate() {
-                if c.next < c.prog.ops.len() && (c.prog.pipeline || c.pending.is_empty()) {
+                // (an empty typed list queues nothing - C13 - so it cannot race with anything)
+                let queues_nothing = matches!(c.prog.ops.get(c.next), Some(Op::ProbeVec(v)) if v.is_empty());
+                if c.next < c.prog.ops.len() && (c.prog.pipeline || c.pending.is_empty()) && !queues_nothing {
                     for &k in &ks {
                         for recv_first in [true, false] {
                             alts.push(Ev::Race { caller: i, k, recv_first });
